@@ -270,6 +270,9 @@ class Evaluator:
         if isinstance(n, ast.UnaryOp) and isinstance(n.op, ast.Invert):
             return self.ev(n.operand)
         if isinstance(n, ast.BinOp):
+            if isinstance(n.op, ast.Mod) and "np.mod" in self.hooks:
+                # `a % b` is np.mod(a, b)
+                return self.hooks["np.mod"](self, ast.Call(func=ast.Name(id="np.mod", ctx=ast.Load()), args=[n.left, n.right], keywords=[]))
             return self.binop(n.op, self.ev(n.left), self.ev(n.right))
         if isinstance(n, ast.Subscript):
             return self.subscript(n)
@@ -283,6 +286,17 @@ class Evaluator:
         raise NotInFragment(type(n).__name__)
 
     def binop(self, op, a: SV, b: SV) -> SV:
+        if isinstance(op, ast.MatMult):
+            if a.kind == "rot":
+                return b      # R @ v: an orthogonal change of frame
+            if b.kind == "rot":
+                return a
+            if len(a.comps) == len(b.comps) and a.comps:
+                tot = Poly()
+                for x, y in zip(a.comps, b.comps):
+                    tot = tot + x * y
+                return SV("cyc" if "cyc" in (a.kind, b.kind) else "scal", [tot], a.summed or b.summed)
+            raise NotInFragment("matmul")
         if a.kind == "newaxis" or b.kind == "newaxis":
             raise NotInFragment("newaxis arithmetic")
         summed = a.summed or b.summed
@@ -428,8 +442,12 @@ class Evaluator:
                 out = [x[1] * y[2] - x[2] * y[1], x[2] * y[0] - x[0] * y[2], x[0] * y[1] - x[1] * y[0]]
                 return SV("cyc" if "cyc" in (a.kind, b.kind) else "vec", out, a.summed or b.summed)
             raise NotInFragment("cross")
-        if f in ("np.dot", "np.inner"):
+        if f in ("np.dot", "np.inner", "np.matmul"):
             a, b = self.ev(args[0]), self.ev(args[1])
+            if a.kind == "rot":
+                return b      # an orthogonal change of frame applied to b
+            if b.kind == "rot":
+                return a
             if len(a.comps) == len(b.comps):
                 tot = Poly()
                 for x, y in zip(a.comps, b.comps):
